@@ -19,8 +19,7 @@ rm -rf "$SRC/.git"
 key() { /venv/bin/python -c "import hashlib,os,sys;print(hashlib.md5(os.path.abspath(sys.argv[1]).encode()).hexdigest()[:8])" "$1"; }
 mk=$(key /repo); sk=$(key "$SRC")
 [ -d "$MAIN/work-$mk" ] && cp -a "$MAIN/work-$mk" "$SEED/work-$sk"
-h=$(ls -dt "$MAIN"/home-[0-9a-f]* 2>/dev/null | head -1)
-[ -n "$h" ] && cp -al "$h" "$SEED/"
+for h in $(ls -dt "$MAIN"/home-[0-9a-f]* 2>/dev/null | head -2); do cp -al "$h" "$SEED/"; done
 cd /verif
 VERIF_REPO=$SRC VERIF_CACHE=$SEED VERIF_NOEVIDENCE=1 bin/check "$id" --tier "$tier" > /tmp/try_seed_$$.log 2>&1
 rc=$?
